@@ -65,6 +65,16 @@ Theorem C05_driver_is_frame_spec :
 Proof. exact driver_is_frame_spec. Qed.
 Print Assumptions C05_driver_is_frame_spec.
 
+(* [section_loop] in [driver] is the fusion of the source's two nested loops
+   ([parse_section] inside the [loop] of [decode]); kept apart, with fuel for
+   the outer one, they compute the same and never run out of fuel *)
+Theorem C05_nested_loops_fused :
+  forall S (ps : parsers S) fuel sec st lines,
+  (length lines < fuel)%nat ->
+  decode_loop fuel ps sec st lines = Done (section_loop ps sec st lines).
+Proof. exact decode_loop_fused. Qed.
+Print Assumptions C05_nested_loops_fused.
+
 (* ------------------------------------------------------------------ *)
 (* T05b                                                                *)
 
